@@ -29,7 +29,11 @@ RULE = ("a case = 1-2 generated show files (1-4 steps, durations 1-6 ticks of 1/
         "absolute time, steps setting 1-2 lights with optional fade) + play settings (speed 0.5/1/2/4, loops -1/0/1/2, start "
         "step, start_running, manual_advance, priority) + 3-12 control requests (pause, resume without pause, advance, "
         "step_back, speed update, stop, re-play) at gaps of 0..28 units of 1/32 s, biased to step boundaries, then stop of "
-        "everything, 2-4 further requests for the stopped shows, and a quiet tail; 30% of the cases run with slow effects "
+        "everything, 2-4 further requests for the stopped shows, and a quiet tail; in 4 of 7 cases the lights have a non-zero "
+        "fade (light fade_ms or light_settings default_fade_ms 125/250/500 ms), two shows use the same lights and their "
+        "stops land inside each other's fade-out windows / at the same instant / at a window's end; afterwards the "
+        "stacks must equal the twin's and a later low-priority fade must produce the twin's hardware fade commands; "
+        "30% of the cases run with slow effects "
         "(late timers).  non-trivial = at least one control request lands while the show runs or the show loops/completes; "
         "distinct = canonical JSON of the case")
 TRUSTED = [
